@@ -18,7 +18,7 @@ import threading
 import time
 import types
 
-TOOL = 3
+TOOLS = (3, 4, 2, 1)     # several engines may coexist in one process
 _mon = sys.monitoring
 
 
@@ -55,8 +55,14 @@ class Engine:
 
   def install(self):
     if not self._installed:
-      _mon.use_tool_id(TOOL, self.name)
-      _mon.register_callback(TOOL, _mon.events.LINE, self._on_line)
+      for tool in TOOLS:
+        if _mon.get_tool(tool) is None:
+          self.tool = tool
+          break
+      else:
+        raise RuntimeError('no free sys.monitoring tool id')
+      _mon.use_tool_id(self.tool, self.name)
+      _mon.register_callback(self.tool, _mon.events.LINE, self._on_line)
       self._installed = True
     before = len(self._codes)
     for o in gc.get_objects():
@@ -68,15 +74,15 @@ class Engine:
         if code.co_filename in self.files:
           self._walk(code)
     for c in self._codes:
-      _mon.set_local_events(TOOL, c, _mon.events.LINE)
+      _mon.set_local_events(self.tool, c, _mon.events.LINE)
     return len(self._codes) - before
 
   def uninstall(self):
     if self._installed:
       for c in self._codes:
-        _mon.set_local_events(TOOL, c, 0)
-      _mon.register_callback(TOOL, _mon.events.LINE, None)
-      _mon.free_tool_id(TOOL)
+        _mon.set_local_events(self.tool, c, 0)
+      _mon.register_callback(self.tool, _mon.events.LINE, None)
+      _mon.free_tool_id(self.tool)
       self._installed = False
 
   # -------------------------------------------------------------- callback
